@@ -38,6 +38,17 @@ class Program(object):
             items = items[:1]
         elif part == 'subs':
             items = items[1:]
+        if part == 'decoys':
+            # standalone workflows with the short names of the workbook's sub-workflows: they must never be called
+            for nm, p in items[1:]:
+                out += ['%s:' % nm, '  type: direct', '  tasks:', '    decoy_%s:' % nm, '      action: verif.act tag="decoy_%s"' % nm, '']
+            return '\n'.join(out) + '\n'
+        if self.flags.get('wb') and part == 'all':
+            # the whole program as ONE workbook: workflows call each other by their workbook-relative short names
+            out += ['name: %s' % self.flags['wb'], 'workflows:']
+            for nm, p in items:
+                out += ['  ' + line if line else line for line in p._yaml_wf(nm)]
+            return '\n'.join(out) + '\n'
         for nm, p in items:
             out += p._yaml_wf(nm)
         return '\n'.join(out) + '\n'
@@ -130,6 +141,14 @@ class Program(object):
                 inbound[t] = sorted(set(s for s in P.order for key in ('succ', 'err', 'comp')
                                         for e in (P.tasks[s].get(key) or []) if e['to'] == t))
                 order.append(t)
+        if self.flags.get('wb') and self.subs:
+            # the decoy workflows (standalone, same short names): known to the definition so that a run that wrongly
+            # calls one is judged (clause CalledDefinition) instead of being unreadable
+            for nm in sorted(self.subs):
+                tasks['decoy_%s' % nm] = dict(kind='action', join=0, succ=[], err=[], comp=[], requires=[], outcome=[['ok']], wf='decoy:%s' % nm,
+                                              sub='', items=-1, conc=0, retry=0, delay=0, waitBefore=0, waitAfter=0, timeout=0,
+                                              pauseBefore=False, failOn=False)
+                inbound['decoy_%s' % nm] = []
         closure = []
         if self.type == 'reverse' and self.target:
             todo = [self.target]
@@ -139,13 +158,14 @@ class Program(object):
                     closure.append(x)
                     todo += list(self.tasks[x].get('requires') or [])
         return dict(name=self.name, type=self.type, order=order, tasks=tasks, inbound=inbound,
-                    target=self.target or '', closure=sorted(closure), flags=dict(self.flags, _=0))
+                    target=self.target or '', closure=sorted(closure), flags=dict(self.flags, _=0),
+                    wbprefix=(self.flags['wb'] + '.') if self.flags.get('wb') else '')
 
 
 CMDS = ['fail', 'succeed', 'noop']
 
 
-def gen_direct(rnd, n=None, partial_joins=True, p_publish=0.0, p_sub=0.0, p_items=0.0, p_retry=0.0, p_policy=0.0, p_join=0.9, p_join1=0.2, p_err=0.3, p_guard=0.3, p_cmd=0.15, p_comp=0.2, allow_cmd=True, max_out=2, p_pause=0.0):
+def gen_direct(rnd, n=None, partial_joins=True, p_publish=0.0, p_sub=0.0, p_items=0.0, p_retry=0.0, p_policy=0.0, p_join=0.9, p_join1=0.2, p_err=0.3, p_guard=0.3, p_cmd=0.15, p_comp=0.2, allow_cmd=True, max_out=2, p_pause=0.0, cmds=None):
     """Random direct DAG: edges go forward in the task order; a task with >= 2 inbound edges is a
     join (all / one / N) with probability p_join (otherwise it runs once per trigger)."""
     P = Program()
@@ -167,7 +187,7 @@ def gen_direct(rnd, n=None, partial_joins=True, p_publish=0.0, p_sub=0.0, p_item
         for _ in range(nout):
             key = rnd.choices(['succ', 'err', 'comp'], [0.6, 0.25, p_comp])[0]
             if allow_cmd and rnd.random() < p_cmd:
-                to = rnd.choice(CMDS)
+                to = rnd.choice(cmds or CMDS)
             else:
                 to = rnd.choice(later)
             if any(e['to'] == to for e in d[key]):
@@ -182,6 +202,8 @@ def gen_direct(rnd, n=None, partial_joins=True, p_publish=0.0, p_sub=0.0, p_item
                 inbound[to].add(t)
             elif to in ('fail', 'succeed'):
                 racy_cmd = True
+            elif to == 'pause':
+                P.flags['pause'] = True
     # every task except t0 needs an inbound edge, else it is a start task (fine: parallel starts)
     multi = False
     for t in names:
@@ -291,6 +313,31 @@ def diamond(join=-1, outcomes=None, err_route=False):
     return P
 
 
+def long_branch_shapes(length=6):
+    """A join fed by a branch of `length` tasks (b1 -> ... -> bN -> j) and by a short branch (c -> j); the long branch
+    breaks at position k (the task fails without an on-error route, or its transition is guarded by a false condition),
+    for every k: the join must fail (its route became impossible), however far upstream the break is."""
+    out = []
+    for k in range(1, length + 1):
+        for how in ('err', 'guard'):
+            P = Program()
+            bs = ['b%d' % i for i in range(1, length + 1)]
+            P.order = bs + ['c', 'j']
+            P.tasks = {}
+            for i, b in enumerate(bs):
+                to = bs[i + 1] if i + 1 < length else 'j'
+                e = {'to': to}
+                if how == 'guard' and i + 1 == k:
+                    e.update(fires=False, expr='<% 1 = 2 %>')
+                P.tasks[b] = {'succ': [e], 'err': [], 'comp': []}
+            P.tasks['c'] = {'succ': [{'to': 'j'}], 'err': [], 'comp': []}
+            P.tasks['j'] = {'join': -1, 'succ': [], 'err': [], 'comp': []}
+            if how == 'err':
+                P.oracle = {'b%d' % k: ['err']}
+            out.append(('long_branch_%s_at_%d' % (how, k), P))
+    return out
+
+
 def items_over_subworkflows(n_items=2, conc=None, then=True):
     """t0 iterates n_items times over sub-workflow sub1 (one action task); every first execution of that action fails,
     every later one succeeds - so after the items failed, the task inside each item's sub-workflow can be rerun."""
@@ -357,6 +404,18 @@ def catalogue():
     P.order = ['a', 'b']
     P.tasks = {'a': {'succ': [{'to': 'b'}]}, 'b': {}}
     out.append(('chain2', P))
+    # the pause command with a task behind it (that task goes to the backlog) while another branch is still running
+    P = Program()
+    P.order = ['a', 'c', 'b']
+    P.tasks = {'a': {'succ': [{'to': 'pause'}, {'to': 'b'}]}, 'c': {}, 'b': {}}
+    P.flags['pause'] = True
+    out.append(('cmd_pause_backlog', P))
+    # ... and with a JOIN behind the pause command (its command is saved in the backlog and restored at resume)
+    P = Program()
+    P.order = ['a', 'b', 'j']
+    P.tasks = {'a': {'succ': [{'to': 'pause'}, {'to': 'j'}]}, 'b': {'succ': [{'to': 'j'}]}, 'j': {'join': -1}}
+    P.flags['pause'] = True
+    out.append(('cmd_pause_join', P))
     # a task whose only transition is the engine command noop
     P = Program()
     P.order = ['a']
